@@ -14,6 +14,7 @@ use ntex_bytes::BytePages;
 use ntex_codec::Encoder;
 use std::cell::{Cell, RefCell};
 use std::rc::Rc;
+use ntex_util::time::Seconds;
 
 pub const LOG_CAP: usize = 6;
 
@@ -39,12 +40,31 @@ pub struct IoState {
     pub close_calls: Cell<usize>,
     pub terminate_calls: Cell<usize>,
     pub notify_calls: Cell<usize>,
+    /// timers started through `start_timer`: count and the last duration
+    pub timer_starts: Cell<usize>,
+    pub timer_last: Cell<u16>,
+    pub cfg: IoConfig,
 }
 
 #[derive(Debug, Clone)]
 pub struct IoRef(pub Rc<IoState>);
 
 impl IoRef {
+    pub fn model_new_cfg(cfg: IoConfig) -> IoRef {
+        let io = IoRef::model_new();
+        // the only reference so far
+        let mut io = io;
+        Rc::get_mut(&mut io.0).unwrap().cfg = cfg;
+        io
+    }
+    pub fn cfg(&self) -> &IoConfig {
+        &self.0.cfg
+    }
+    pub fn start_timer(&self, t: Seconds) {
+        self.0.timer_starts.set(self.0.timer_starts.get() + 1);
+        self.0.timer_last.set(t.0);
+    }
+    pub fn stop_timer(&self) {}
     pub fn model_new() -> IoRef {
         IoRef(Rc::new(IoState {
             st: Cell::new(0),
@@ -55,6 +75,9 @@ impl IoRef {
             close_calls: Cell::new(0),
             terminate_calls: Cell::new(0),
             notify_calls: Cell::new(0),
+            timer_starts: Cell::new(0),
+            timer_last: Cell::new(0),
+            cfg: IoConfig { frame_read_rate: None, keepalive: Seconds(0) },
         }))
     }
     pub fn model_finish_shutdown(&self) {
@@ -125,4 +148,40 @@ impl AsRef<IoRef> for IoBoxed {
     fn as_ref(&self) -> &IoRef {
         &self.0
     }
+}
+
+/// `ntex_io::cfg::FrameReadRate` / the two getters of `IoConfig` that io.rs consults
+#[derive(Copy, Clone, Debug)]
+pub struct FrameReadRate {
+    pub timeout: Seconds,
+    pub max_timeout: Seconds,
+    pub rate: u32,
+}
+#[derive(Copy, Clone, Debug)]
+pub struct IoConfig {
+    pub frame_read_rate: Option<FrameReadRate>,
+    pub keepalive: Seconds,
+}
+impl IoConfig {
+    pub fn frame_read_rate(&self) -> Option<&FrameReadRate> {
+        self.frame_read_rate.as_ref()
+    }
+    pub fn keepalive_timeout(&self) -> Seconds {
+        self.keepalive
+    }
+}
+/// `ntex_io::Decoded`
+pub struct Decoded<T> {
+    pub item: Option<T>,
+    pub remains: usize,
+    pub consumed: usize,
+}
+impl IoBoxed {
+    pub fn cfg(&self) -> &IoConfig {
+        self.0.cfg()
+    }
+    pub fn start_timer(&self, t: Seconds) {
+        self.0.start_timer(t)
+    }
+    pub fn stop_timer(&self) {}
 }
